@@ -184,20 +184,18 @@ CLAIMS = {
     'C13': dict(
         technique='Coq invariant proof over all histories with subscriber callbacks that may raise (TTL exactness after every '
                   'update/cleanup that returns, cache lower bound, ordered mode sortedness; structural invariants in every '
-                  'state), refutation witnesses for the open finding + differential check under a controlled clock with '
+                  'state), refutation witnesses on the unrepaired bodies for the repaired defect + differential check under a controlled clock with '
                   'raising subscribers',
         text='Over the general model (callbacks return or raise; pop_track swallows KeyError after deleting the track; every '
              'other exception escapes through insert/update/cleanup as in the Python): C13_expiry_exact (after every cleanup() '
-             'or update() at time now that RETURNS, for every TTL, both modes and every behaviour of the subscribers, every '
-             'remaining track is younger than the TTL and every track removed by expiry had reached it -- in every state '
-             'reached while no exception of a subscriber has left update()/cleanup(); a KeyError of a DELETED subscriber '
-             'never does), C13_never_removes_fresh (every operation from every state, also one left by an exception: only '
-             'tracks that reached the TTL are removed; the structural invariants hold afterwards), C13_no_ttl_no_expiry, '
-             'C13_invariants / C13_structural_invariants, C13_quiet_subscribers_give_trk_step, C13_oracle_is_spec are proved in '
-             'Coq by induction over unbounded histories. C13_statement_any_state (the same without the guard) stays visible and '
-             'is REFUTED (C13_refuted_after_callback_exception, C13_refuted_after_aborted_cleanup: after a CREATED subscriber '
-             'raised, or a DELETED subscriber raised a non-KeyError inside cleanup(), oldest_timestamp is no lower bound any '
-             'more and a later cleanup() returns early leaving an expired track) -- open known finding. ' + TIE,
+             'or update() at time now that RETURNS -- from every reachable state, for every TTL, both modes and every behaviour '
+             'of the subscribers -- every remaining track is younger than the TTL and every track removed by expiry had reached '
+             'it), C13_never_removes_fresh (every operation, also one left by an exception: only tracks that reached the TTL are '
+             'removed; the invariants hold afterwards), C13_no_ttl_no_expiry, C13_invariants (in EVERY reachable state: unique '
+             'keys, oldest_timestamp cache is a lower bound, ordered mode implies sorted), C13_quiet_subscribers_give_trk_step, '
+             'C13_oracle_is_spec are proved in Coq by induction over unbounded histories. The defect repaired by `fix: keep '
+             'oldest_timestamp a lower bound of the tracks when a subscriber callback raises` is witnessed on the kept unrepaired '
+             'bodies (C13_unrepaired_refuted_after_callback_exception, C13_unrepaired_refuted_after_aborted_cleanup). ' + TIE,
         note=BASE_NOTE + 'explicit clock as in C12; what the callbacks do is data of each operation (rules carried by the '
              'history); callbacks that call back into the tracker are outside the model; the iteration order of the set of '
              'expired MMSIs is a parameter of the model (the theorems hold for every order, the check reads it off the '
